@@ -422,7 +422,16 @@ func asyncCheck(prop string, c asyncCfg, o *asyncObs, x *zzvrt.Exec) (string, []
 		for i, id := range delivered {
 			pos[id] = i
 		}
-		for p, subs := range o.perProd {
+		// the items queued before the producers started came from one goroutine too (in the order p0, p1, ...)
+		perProd := o.perProd
+		if c.prefill > 0 {
+			var pre []string
+			for i := 0; i < c.prefill; i++ {
+				pre = append(pre, fmt.Sprintf("W:p%d", i))
+			}
+			perProd = append(append([][]string(nil), o.perProd...), pre)
+		}
+		for p, subs := range perProd {
 			last := -1
 			for _, id := range subs {
 				if i, ok := pos[id]; ok {
